@@ -180,6 +180,11 @@ impl World {
             let sigrefs = format!("{prefix}refs/rad/sigrefs");
             match st.as_str() {
                 "signed" => {}
+                "signed2" => {
+                    // a branch called rad/sigrefs: its full name also ends in /rad/sigrefs
+                    let master = raw.refname_to_id(&format!("{prefix}refs/heads/master")).expect("master");
+                    raw.reference(&format!("{prefix}refs/heads/rad/sigrefs"), master, true, "verif").expect("branch rad/sigrefs");
+                }
                 "unsigned" => raw.find_reference(&sigrefs).and_then(|mut r| r.delete()).expect("delete sigrefs"),
                 "absent" => {
                     let names: Vec<String> = raw
@@ -240,6 +245,7 @@ impl World {
                 "unsigned"
             } else {
                 match SignedRefsAt::load(*dev(i).public_key(), &repo) {
+                    Ok(Some(_)) if raw.find_reference(&format!("{prefix}refs/heads/rad/sigrefs")).is_ok() => "signed2",
                     Ok(Some(_)) => "signed",
                     Ok(None) => "unsigned",
                     Err(_) => "corrupt",
@@ -255,8 +261,10 @@ impl World {
         match op {
             "clean" => match guard(|| self.live.clean(*rid)) {
                 Ok(Ok(ids)) => {
+                    // a peer yielded twice by `remote_ids` is reported twice: the report is taken as a set
                     let mut v: Vec<String> = ids.iter().map(|i| self.name_of(i)).collect();
                     v.sort();
+                    v.dedup();
                     ("ok".into(), v, String::new())
                 }
                 Ok(Err(e)) => ("err".into(), vec![], e.to_string()),
@@ -306,7 +314,7 @@ fn breach(local: &str, delegates: &[String], pre: &BTreeMap<String, String>, res
             }
         }
         None
-    } else if matches!(pre[local].as_str(), "signed" | "corrupt") {
+    } else if matches!(pre[local].as_str(), "signed" | "signed2" | "corrupt") {
         Some(format!("whole repository removed although the local peer has sigrefs ({})", pre[local]))
     } else {
         None
@@ -420,7 +428,7 @@ fn main() {
                 if delegates.is_empty() {
                     delegates.push(nodes[rng.usize(0..4)].clone());
                 }
-                let states = ["absent", "unsigned", "signed", "signed", "corrupt"];
+                let states = ["absent", "unsigned", "signed", "signed2", "corrupt"];
                 let init: BTreeMap<String, String> = nodes
                     .iter()
                     .map(|nm| {
